@@ -154,3 +154,453 @@ def m_from_primitive(it, name, a):
     if f is None:
         raise Unsupported('derived %s::%s not found' % (ty, tgt))
     return it.run(f, [v64])
+
+
+# --------------------------------------------------------------------------- strings
+from .symstr import SStr, chars_of, normalize, sconcat, schr  # noqa: E402
+from .models import innermost_ref, iter_of, drain_iter, as_callable_ref  # noqa: E402
+
+
+def S(it, x):
+    v = it.deref(x)
+    if isinstance(v, (str, SStr)):
+        return v
+    if isinstance(v, Adt) and v.ty == 'Box' and len(v.f) == 1:
+        return S(it, v.f[0])
+    raise Unsupported('expected a string, got %r' % (v,))
+
+
+def conc(v):
+    if isinstance(v, SStr):
+        raise Unsupported('operation needs a concrete string')
+    return v
+
+
+@model(r'<(std::string::)?String as (Deref|DerefMut|Clone|ToOwned|Borrow<str>|AsRef<str>|AsRef<\[u8\]>|ToString|Display)>::\w+',
+       r'<str as (ToOwned|ToString|AsRef<str>)>::\w+', r'<&str as (ToString|Into<.*>|ToOwned)>::\w+',
+       r'<(std::string::)?String as (From|Into)<.*>>::(from|into)', r'<&?(mut )?str as Into<.*>>::into',
+       r'<Box<str> as From<.*>>::from', r'<Cow<.*> as (Deref|ToString)>::\w+',
+       exact=('std::string::String::as_str', 'String::as_str', 'std::string::String::as_mut_str', 'core::str::<impl str>::to_string',
+              'str::<impl str>::to_owned', 'std::string::String::into_boxed_str', 'std::string::String::from_utf8_lossy',
+              'core::str::<impl str>::to_owned', 'std::str::<impl str>::to_string', 'std::string::String::from_str',
+              'std::borrow::Cow::into_owned', 'Cow::into_owned', 'str::<impl str>::into_string', 'std::string::String::into_string'))
+def m_str_identity(it, name, a):
+    return S(it, a[0])
+
+
+@model(exact=('std::string::String::new', 'String::new', 'std::string::String::with_capacity', 'String::with_capacity'))
+def m_string_new(it, name, a):
+    return ''
+
+
+def utf8_of(it, c):
+    """UTF-8 bytes of a char (int | BV32): list of int | BV8; forks on the length class of a symbolic char"""
+    if isinstance(c, int):
+        return list(chr(c).encode('utf-8', 'surrogatepass'))
+    e = lambda t: z3.simplify(z3.Extract(7, 0, t))
+    if it.decide(z3.ULT(c, 0x80)):
+        return [e(c)]
+    if it.decide(z3.ULT(c, 0x800)):
+        return [e(0xC0 | z3.LShR(c, 6)), e(0x80 | (c & 0x3F))]
+    if it.decide(z3.ULT(c, 0x10000)):
+        return [e(0xE0 | z3.LShR(c, 12)), e(0x80 | (z3.LShR(c, 6) & 0x3F)), e(0x80 | (c & 0x3F))]
+    return [e(0xF0 | z3.LShR(c, 18)), e(0x80 | (z3.LShR(c, 12) & 0x3F)), e(0x80 | (z3.LShR(c, 6) & 0x3F)), e(0x80 | (c & 0x3F))]
+
+
+def utf8_bytes(it, s):
+    if isinstance(s, str):
+        return list(s.encode('utf-8'))
+    out = []
+    for c in s.chars:
+        out.extend(utf8_of(it, c))
+    return out
+
+
+@model(exact=('core::str::<impl str>::len', 'std::string::String::len', 'String::len'))
+def m_str_len(it, name, a):
+    return len(utf8_bytes(it, S(it, a[0])))
+
+
+@model(exact=('core::str::<impl str>::is_empty', 'std::string::String::is_empty', 'String::is_empty'))
+def m_str_is_empty(it, name, a):
+    s = S(it, a[0])
+    return len(chars_of(s)) == 0
+
+
+@model(exact=('core::str::<impl str>::chars',))
+def m_str_chars(it, name, a):
+    return IterV('owned', chars_of(S(it, a[0])), 0)
+
+
+@model(exact=('core::str::<impl str>::char_indices',))
+def m_str_char_indices(it, name, a):
+    s = conc(S(it, a[0]))
+    out = []
+    pos = 0
+    for c in s:
+        out.append(Adt('()', None, [pos, ord(c)]))
+        pos += len(c.encode('utf-8'))
+    return IterV('owned', out, 0)
+
+
+@model(exact=('core::str::<impl str>::bytes',))
+def m_str_bytes(it, name, a):
+    return IterV('owned', utf8_bytes(it, S(it, a[0])), 0)
+
+
+@model(exact=('core::str::<impl str>::as_bytes', 'std::string::String::as_bytes', 'std::string::String::into_bytes', 'String::into_bytes'))
+def m_str_as_bytes(it, name, a):
+    b = VecV(utf8_bytes(it, S(it, a[0])))
+    return b if name.endswith('into_bytes') else Ref(Cell(b))
+
+
+@model(exact=('std::string::String::from_utf8', 'String::from_utf8', 'core::str::from_utf8', 'std::str::from_utf8'))
+def m_from_utf8(it, name, a):
+    v = it.deref(a[0]) if isinstance(a[0], Ref) else a[0]
+    items = v.items
+    if not all(isinstance(b, int) for b in items):
+        raise Unsupported('from_utf8 of symbolic bytes')
+    try:
+        return ok(bytes(items).decode('utf-8'))
+    except UnicodeDecodeError:
+        return err(Adt('Utf8Error', None, []))
+
+
+@model(exact=('std::string::String::push', 'String::push'))
+def m_string_push(it, name, a):
+    r = innermost_ref(it, a[0])
+    cur = it.read(r.cell, r.path)
+    it.write(r.cell, r.path, sconcat(cur, schr(a[1])))
+    return UNIT
+
+
+@model(exact=('std::string::String::push_str', 'String::push_str'), *[r'<(std::string::)?String as (std::ops::)?AddAssign<&str>>::add_assign'])
+def m_string_push_str(it, name, a):
+    r = innermost_ref(it, a[0])
+    cur = it.read(r.cell, r.path)
+    it.write(r.cell, r.path, sconcat(cur, S(it, a[1])))
+    return UNIT
+
+
+@model(r'<(std::string::)?String as (std::ops::)?Add<&str>>::add')
+def m_string_add(it, name, a):
+    return sconcat(S(it, a[0]), S(it, a[1]))
+
+
+@model(exact=('std::string::String::clear', 'String::clear'))
+def m_string_clear(it, name, a):
+    r = innermost_ref(it, a[0])
+    it.write(r.cell, r.path, '')
+    return UNIT
+
+
+@model(exact=('std::string::String::pop', 'String::pop'))
+def m_string_pop(it, name, a):
+    r = innermost_ref(it, a[0])
+    cur = chars_of(it.read(r.cell, r.path))
+    if not cur:
+        return none()
+    it.write(r.cell, r.path, normalize(cur[:-1]))
+    return some(cur[-1])
+
+
+def _pat(it, p):
+    v = it.deref(p)
+    if isinstance(v, int):
+        return chr(v)
+    if isinstance(v, str):
+        return v
+    if isinstance(v, VecV):
+        return [chr(x) for x in v.items]
+    raise Unsupported('string pattern %r' % (v,))
+
+
+def _str_eq(it, x, y):
+    if isinstance(x, str) and isinstance(y, str):
+        return x == y
+    cx, cy = chars_of(x), chars_of(y)
+    if len(cx) != len(cy):
+        return False
+    for p, q in zip(cx, cy):
+        if not it.decide(it.eq(p, q)):
+            return False
+    return True
+
+
+@model(r'<&?(mut )?(str|std::string::String|String) as PartialEq(<&?(str|std::string::String|String)>)?>::(eq|ne)',
+       r'<&?&?str as PartialEq<&?&?(str|std::string::String)>>::(eq|ne)')
+def m_str_eq(it, name, a):
+    r = _str_eq(it, S(it, a[0]), S(it, a[1]))
+    return (not r) if name.endswith('::ne') else r
+
+
+@model(exact=('core::str::<impl str>::starts_with', 'core::str::<impl str>::ends_with', 'core::str::<impl str>::contains'))
+def m_str_test(it, name, a):
+    s = S(it, a[0])
+    p = _pat(it, a[1]) if not isinstance(it.deref(a[1]), Adt) else None
+    op = name.split('::')[-1]
+    if p is None:
+        clo = as_callable_ref(it, a[1])
+        cs = chars_of(s)
+        if op == 'contains':
+            return any(it.decide(it.call_closure_ref(clo, [c])) for c in cs)
+        if not cs:
+            return False
+        return it.decide(it.call_closure_ref(clo, [cs[0] if op == 'starts_with' else cs[-1]]))
+    if isinstance(s, SStr):
+        cs = chars_of(s)
+        if isinstance(p, str) and len(p) == 1 and op == 'contains':
+            return any(it.decide(it.eq(c, ord(p))) for c in cs)
+        if isinstance(p, str):
+            pc = [ord(c) for c in p]
+            if op == 'starts_with':
+                return len(cs) >= len(pc) and all(it.decide(it.eq(c, q)) for c, q in zip(cs, pc))
+            if op == 'ends_with':
+                return len(cs) >= len(pc) and all(it.decide(it.eq(c, q)) for c, q in zip(cs[len(cs) - len(pc):], pc))
+        raise Unsupported('%s on a symbolic string' % op)
+    if isinstance(p, list):
+        if op == 'starts_with':
+            return any(s.startswith(c) for c in p)
+        if op == 'ends_with':
+            return any(s.endswith(c) for c in p)
+        return any(c in s for c in p)
+    return {'starts_with': s.startswith, 'ends_with': s.endswith, 'contains': s.__contains__}[op](p)
+
+
+@model(exact=('core::str::<impl str>::find', 'core::str::<impl str>::rfind'))
+def m_str_find(it, name, a):
+    s = conc(S(it, a[0]))
+    p = _pat(it, a[1])
+    if isinstance(p, list):
+        idx = [s.find(c) for c in p if s.find(c) >= 0]
+        i = min(idx) if idx else -1
+    else:
+        i = s.find(p) if name.endswith('::find') else s.rfind(p)
+    if i < 0:
+        return none()
+    return some(len(s[:i].encode('utf-8')))
+
+
+_WS = ' \t\n\x0b\x0c\r\x85\xa0                　'
+
+
+@model(exact=('core::str::<impl str>::trim', 'core::str::<impl str>::trim_start', 'core::str::<impl str>::trim_end',
+              'core::str::<impl str>::trim_left', 'core::str::<impl str>::trim_right'))
+def m_str_trim(it, name, a):
+    s = S(it, a[0])
+    op = name.split('::')[-1]
+    if isinstance(s, SStr):
+        cs = list(s.chars)
+
+        def is_ws(c):
+            if isinstance(c, int):
+                return chr(c) in _WS
+            return it.decide(z3.Or([c == ord(w) for w in _WS]))
+        if op in ('trim', 'trim_start', 'trim_left'):
+            while cs and is_ws(cs[0]):
+                cs.pop(0)
+        if op in ('trim', 'trim_end', 'trim_right'):
+            while cs and is_ws(cs[-1]):
+                cs.pop()
+        return normalize(cs)
+    if op == 'trim':
+        return s.strip(_WS)
+    if op in ('trim_start', 'trim_left'):
+        return s.lstrip(_WS)
+    return s.rstrip(_WS)
+
+
+@model(exact=('core::str::<impl str>::trim_matches', 'core::str::<impl str>::trim_start_matches', 'core::str::<impl str>::trim_end_matches',
+              'core::str::<impl str>::strip_prefix', 'core::str::<impl str>::strip_suffix'))
+def m_str_trim_matches(it, name, a):
+    s = conc(S(it, a[0]))
+    p = _pat(it, a[1])
+    op = name.split('::')[-1]
+    ps = p if isinstance(p, list) else [p]
+    if op == 'strip_prefix':
+        for q in ps:
+            if s.startswith(q):
+                return some(s[len(q):])
+        return none()
+    if op == 'strip_suffix':
+        for q in ps:
+            if s.endswith(q):
+                return some(s[:len(s) - len(q)])
+        return none()
+    changed = True
+    while changed:
+        changed = False
+        for q in ps:
+            if q and op in ('trim_matches', 'trim_start_matches') and s.startswith(q):
+                s = s[len(q):]
+                changed = True
+            if q and op in ('trim_matches', 'trim_end_matches') and s.endswith(q):
+                s = s[:len(s) - len(q)]
+                changed = True
+    return s
+
+
+@model(exact=('core::str::<impl str>::to_lowercase', 'str::<impl str>::to_lowercase', 'core::str::<impl str>::to_uppercase', 'str::<impl str>::to_uppercase',
+              'core::str::<impl str>::to_ascii_lowercase', 'core::str::<impl str>::to_ascii_uppercase',
+              'str::<impl str>::to_ascii_lowercase', 'str::<impl str>::to_ascii_uppercase'))
+def m_str_case(it, name, a):
+    s = conc(S(it, a[0]))
+    op = name.split('::')[-1]
+    if op == 'to_lowercase':
+        return s.lower()
+    if op == 'to_uppercase':
+        return s.upper()
+    if op == 'to_ascii_lowercase':
+        return ''.join(c.lower() if ord(c) < 128 else c for c in s)
+    return ''.join(c.upper() if ord(c) < 128 else c for c in s)
+
+
+@model(exact=('core::str::<impl str>::eq_ignore_ascii_case',))
+def m_str_eq_ignore_case(it, name, a):
+    x, y = conc(S(it, a[0])), conc(S(it, a[1]))
+    f = lambda s: ''.join(c.lower() if ord(c) < 128 else c for c in s)
+    return f(x) == f(y)
+
+
+@model(exact=('core::str::<impl str>::split', 'core::str::<impl str>::rsplit', 'core::str::<impl str>::splitn', 'core::str::<impl str>::split_terminator',
+              'core::str::<impl str>::rsplitn'))
+def m_str_split(it, name, a):
+    s = conc(S(it, a[0]))
+    op = name.split('::')[-1]
+    if op in ('splitn', 'rsplitn'):
+        n, p = a[1], _pat(it, a[2])
+        if n == 0:
+            return IterV('owned', [], 0)
+        parts = s.split(p, n - 1) if op == 'splitn' else list(reversed(s.rsplit(p, n - 1)))
+        return IterV('owned', parts, 0)
+    p = _pat(it, a[1])
+    if isinstance(p, list):
+        import re as _re
+        parts = _re.split('[' + _re.escape(''.join(p)) + ']', s)
+    else:
+        parts = s.split(p)
+    if op == 'split_terminator' and parts and parts[-1] == '':
+        parts.pop()
+    if op == 'rsplit':
+        parts.reverse()
+    return IterV('owned', parts, 0)
+
+
+@model(exact=('core::str::<impl str>::split_whitespace', 'core::str::<impl str>::split_ascii_whitespace'))
+def m_str_split_ws(it, name, a):
+    return IterV('owned', conc(S(it, a[0])).split(), 0)
+
+
+@model(exact=('core::str::<impl str>::lines',))
+def m_str_lines(it, name, a):
+    s = conc(S(it, a[0]))
+    parts = s.split('\n')
+    if parts and parts[-1] == '':
+        parts.pop()
+    return IterV('owned', [p[:-1] if p.endswith('\r') else p for p in parts], 0)
+
+
+@model(exact=('core::str::<impl str>::split_once', 'core::str::<impl str>::rsplit_once'))
+def m_str_split_once(it, name, a):
+    s = conc(S(it, a[0]))
+    p = _pat(it, a[1])
+    i = s.find(p) if name.endswith('::split_once') else s.rfind(p)
+    if i < 0:
+        return none()
+    return some(Adt('()', None, [s[:i], s[i + len(p):]]))
+
+
+@model(exact=('core::str::<impl str>::replace', 'str::<impl str>::replace'))
+def m_str_replace(it, name, a):
+    return conc(S(it, a[0])).replace(_pat(it, a[1]), conc(S(it, a[2])))
+
+
+@model(exact=('core::str::<impl str>::repeat', 'str::<impl str>::repeat'))
+def m_str_repeat(it, name, a):
+    return conc(S(it, a[0])) * a[1]
+
+
+@model(r'<(str|std::string::String|String) as (std::ops::)?Index<(std::ops::)?Range(To|From|Full|Inclusive|ToInclusive)?(<usize>)?>>::index',
+       r'core::str::traits::<impl (std::ops::)?Index<.*> for str>::index', r'core::str::<impl str>::get')
+def m_str_index(it, name, a):
+    from .models import _range_bounds
+    s = conc(S(it, a[0]))
+    b = s.encode('utf-8')
+    try:
+        lo, hi = _range_bounds(it, a[1], len(b))
+        r = b[lo:hi].decode('utf-8')
+    except (Panic, UnicodeDecodeError):
+        if name.endswith('::get'):
+            return none()
+        raise Panic('byte index is out of bounds or not a char boundary')
+    return some(r) if name.endswith('::get') else r
+
+
+@model(r'core::str::<impl str>::parse::<.*>', r'<(\w+) as FromStr>::from_str')
+def m_str_parse(it, name, a):
+    n = name
+    m = re.search(r'parse::<((?:\w+::)*\w+)>$', n) or re.search(r'<((?:\w+::)*\w+) as FromStr>', n)
+    ty = m.group(1).split('::')[-1]
+    from .interp import INT_BITS
+    if ty in INT_BITS:
+        from .models import m_parse_int
+        return m_parse_int(it, 'core::str::<impl str>::parse::<%s>' % ty, a)
+    f = it.p.resolve('<%s as FromStr>::from_str' % ty)
+    if f is None:
+        raise Unsupported('parse::<%s>' % ty)
+    return it.run(f, [a[0]])
+
+
+@model(r'<(std::string::)?String as FromIterator<.*>>::from_iter(::<.*>)?')
+def m_string_from_iter(it, name, a):
+    s = ''
+    for c in drain_iter(it, iter_of(it, a[0])):
+        c = it.deref(c)
+        s = sconcat(s, c if isinstance(c, (str, SStr)) else schr(c))
+    return s
+
+
+@model(r'<(std::string::)?String as Extend<.*>>::extend(::<.*>)?')
+def m_string_extend(it, name, a):
+    r = innermost_ref(it, a[0])
+    cur = it.read(r.cell, r.path)
+    for c in drain_iter(it, iter_of(it, a[1])):
+        c = it.deref(c)
+        cur = sconcat(cur, c if isinstance(c, (str, SStr)) else schr(c))
+    it.write(r.cell, r.path, cur)
+    return UNIT
+
+
+@model(r'<(std::string::)?String as (Hash|PartialOrd|Ord)>::\w+')
+def m_str_misc(it, name, a):
+    raise Unsupported(name)
+
+
+@model(exact=('char::methods::<impl char>::to_string', 'core::char::methods::<impl char>::to_string'), *[r'<char as ToString>::to_string'])
+def m_char_to_string(it, name, a):
+    return schr(it.deref(a[0]))
+
+
+@model(exact=('char::convert::<impl char>::from_u32', 'core::char::convert::from_u32', 'char::methods::<impl char>::from_u32', 'std::char::from_u32'))
+def m_char_from_u32(it, name, a):
+    v = a[0]
+    if isinstance(v, int):
+        if v > 0x10FFFF or 0xD800 <= v <= 0xDFFF:
+            return none()
+        return some(v)
+    raise Unsupported('char::from_u32 of a symbolic value')
+
+
+@model(r'<(OsStr|OsString|Path|PathBuf|std::path::Path|std::path::PathBuf|std::ffi::OsStr|std::ffi::OsString) as .*>::\w+',
+       exact=('Path::new', 'std::path::Path::new', 'Path::to_str', 'Path::to_string_lossy', 'Path::as_os_str', 'OsStr::to_str', 'OsStr::to_string_lossy',
+              'PathBuf::as_path', 'Path::to_path_buf', 'PathBuf::from', 'Path::display', 'OsStr::new', 'OsString::into_string', 'std::path::Path::to_str',
+              'std::path::Path::to_string_lossy', 'std::path::PathBuf::as_path', 'std::path::Path::to_path_buf', 'std::path::Path::as_os_str',
+              'std::ffi::OsStr::to_str', 'std::ffi::OsStr::to_string_lossy', 'std::path::Path::display'))
+def m_path_identity(it, name, a):
+    s = S(it, a[0])
+    op = name.split('::')[-1]
+    if op in ('to_str',):
+        return some(s)
+    if op == 'into_string':
+        return ok(s)
+    return s
